@@ -332,6 +332,35 @@ func blockedInLibrary(dump, marker string) (bool, string) {
 	return false, ""
 }
 
+// stuckInLibrary classifies a call that did not return: "blocked" when its goroutine is parked on a
+// channel operation with a library frame innermost, "spinning" when two dumps taken 300 ms apart both
+// show it running/runnable (or in a syscall) with library frames on its stack, "" otherwise.
+func stuckInLibrary(marker string) (string, string) {
+	d1 := goroutineDump()
+	if b, g := blockedInLibrary(d1, marker); b {
+		return "blocked", g
+	}
+	busy := func(dump string) (bool, string) {
+		for _, g := range strings.Split(dump, "\n\n") {
+			if !strings.Contains(g, marker) || !libFrameRe.MatchString(g) {
+				continue
+			}
+			hdr, _, _ := strings.Cut(g, "\n")
+			if strings.Contains(hdr, "[running") || strings.Contains(hdr, "[runnable") || strings.Contains(hdr, "[syscall") {
+				return true, g
+			}
+		}
+		return false, ""
+	}
+	b1, _ := busy(d1)
+	time.Sleep(300 * time.Millisecond)
+	b2, g2 := busy(goroutineDump())
+	if b1 && b2 {
+		return "spinning", g2
+	}
+	return "", ""
+}
+
 // callWithWatchdog runs f in a goroutine (tagged by marker in its stack through the caller) and
 // waits up to d. Returns done=false when the watchdog fired, plus a goroutine dump.
 func callWithWatchdog(d time.Duration, f func()) (done bool, pv any, dump string) {
